@@ -152,6 +152,15 @@ impl WUnit {
     pub fn encoding(&self) -> gimli::Encoding {
         gimli::Encoding { format: if self.format64 { gimli::Format::Dwarf64 } else { gimli::Format::Dwarf32 }, version: self.version, address_size: self.address_size }
     }
+    /// The version of the unit's line program: the unit's own, or - allowed for a version 5 unit - an older one
+    /// (`.debug_line` and `.debug_info` may use different versions).
+    pub fn line_version(&self) -> u16 {
+        if self.version >= 5 && self.entries.len() % 5 == 0 {
+            4
+        } else {
+            self.version
+        }
+    }
     pub fn cfg(&self, big: bool) -> Cfg {
         Cfg { big, runtime_endian: true, address_size: self.address_size, format64: self.format64, version: self.version }
     }
@@ -289,13 +298,14 @@ pub fn build(m: &WDwarf) -> Built {
         let lp = match &u.files {
             Some(files) => {
                 // DWARF 5 programs may keep directory and file names in .debug_str or .debug_line_str
-                let kind = if u.version >= 5 { u.entries.len() % 3 } else { 0 };
+                let lenc = gimli::Encoding { version: u.line_version(), ..enc };
+                let kind = if lenc.version >= 5 { u.entries.len() % 3 } else { 0 };
                 let mut mk = |b: Vec<u8>| match kind {
                     1 => w::LineString::StringRef(dwarf.strings.add(b)),
                     2 => w::LineString::LineStringRef(dwarf.line_strings.add(b)),
                     _ => w::LineString::String(b),
                 };
-                let mut lp = w::LineProgram::new(enc, gimli::LineEncoding::default(), mk(b"/wd".to_vec()), None, mk(files.first().cloned().unwrap_or_else(|| b"main.c".to_vec())), None);
+                let mut lp = w::LineProgram::new(lenc, gimli::LineEncoding::default(), mk(b"/wd".to_vec()), None, mk(files.first().cloned().unwrap_or_else(|| b"main.c".to_vec())), None);
                 let d = lp.default_directory();
                 // embedded source for the first file only (version 5, string-table forms): the others get the
                 // writer's "no source" placeholder, which must resolve to an empty string when read back
@@ -633,7 +643,7 @@ fn expected_meaning(name: u16, v: &WVal, ui: usize, u: &WUnit, _m: &WDwarf) -> S
                 (Some(i), Some(files)) if *i < files.len() && (name == 0x3a || name == 0x58) => format!("file:{:02x?}", files[*i]),
                 (Some(i), Some(files)) if *i < files.len() => "file-index".to_string(),
                 // "no file" is written as index 0, which DWARF 5 defines as the primary source file
-                (None, Some(files)) if u.version >= 5 && in_use && (name == 0x3a || name == 0x58) => format!("file:{:02x?}", files[0]),
+                (None, Some(files)) if u.line_version() >= 5 && in_use && (name == 0x3a || name == 0x58) => format!("file:{:02x?}", files[0]),
                 _ if name == 0x3a || name == 0x58 => "file:none".to_string(),
                 _ => numeric(0),
             }
@@ -695,7 +705,7 @@ fn read_meaning<'a>(dwarf: &gimli::Dwarf<Rdr<'a>>, unit: &gimli::Unit<Rdr<'a>>, 
         A::Inline(x) => numeric(x.0 as u64),
         A::Ordering(x) => numeric(x.0 as u64),
         A::FileIndex(i) => {
-            if (name == 0x3a || name == 0x58) && i == 0 && (unit.header.version() <= 4 || unit.line_program.is_none()) {
+            if (name == 0x3a || name == 0x58) && i == 0 && unit.line_program.as_ref().map_or(true, |lp| lp.header().version() <= 4) {
                 "file:none".to_string()
             } else if name == 0x3a || name == 0x58 {
                 match unit.line_program.as_ref().and_then(|lp| lp.header().file(i)) {
@@ -876,7 +886,8 @@ pub fn check_written(m: &WDwarf, expect: &Expect, cx: &mut Ctx, tag: &str) -> R 
         // the unit's file table: every name, directory and embedded source resolves; the names are the requested ones
         if let (Some(files), Some(prog)) = (&mu.files, unit.line_program.as_ref()) {
             let hdr = prog.header();
-            let v5 = mu.version >= 5;
+            ensure_eq!(hdr.version(), mu.line_version(), format!("{}/readback/line-program-version", tag), "unit {}", ui);
+            let v5 = mu.line_version() >= 5;
             let mut names: Vec<Vec<u8>> = Vec::new();
             for (fi, fe) in hdr.file_names().iter().enumerate() {
                 let name = dwarf.attr_string(&unit, fe.path_name()).map_err(|e| Failure { sig: format!("{}/readback/file-name", tag), detail: format!("unit {} file #{}: {:?}", ui, fi, e) })?;
@@ -942,6 +953,22 @@ pub fn check_written(m: &WDwarf, expect: &Expect, cx: &mut Ctx, tag: &str) -> R 
                     c2.next_entry().ok();
                     let ns = c2.next_sibling().map_err(|e| Failure { sig: format!("{}/sibling/step", tag), detail: format!("{e:?}") })?;
                     ensure!(ns.is_none(), format!("{}/sibling/last-has-sibling", tag), "unit {} entry {}", ui, ei);
+                }
+                // in every case the pointer designates the position just past this entry's subtree (for a last child: the
+                // null entry that ends the parent's list), found here by walking the subtree entry by entry
+                {
+                    let mut raw = unit.entries_raw(Some(entry.offset())).map_err(|e| Failure { sig: format!("{}/sibling/reposition", tag), detail: format!("{e:?}") })?;
+                    let mut tmp = gimli::DebuggingInformationEntry::null();
+                    raw.read_entry(&mut tmp).map_err(|e| Failure { sig: format!("{}/sibling/walk", tag), detail: format!("{e:?}") })?;
+                    let mut guard = 0;
+                    while raw.next_depth() > 0 && !raw.is_empty() {
+                        raw.read_entry(&mut tmp).map_err(|e| Failure { sig: format!("{}/sibling/walk", tag), detail: format!("{e:?}") })?;
+                        guard += 1;
+                        if guard > 100_000 {
+                            break;
+                        }
+                    }
+                    ensure_eq!(o.0, raw.next_offset().0, format!("{}/sibling/target-past-subtree", tag), "unit {} entry {}: the sibling pointer must designate the position just past the entry's subtree", ui, ei);
                 }
                 got.remove(0);
             } else if let Some(f) = got.first() {
